@@ -181,7 +181,7 @@ class C09Session(Session):
 class Sim:
     id = ID
     level = LEVEL
-    runs = {"quick": 4000}
+    runs = {"quick": 8000}
     budget = {"thorough": 600}
     chunk = {"quick": 100, "thorough": 100}
     rule = ("One evaluation = one seeded session: 1-3 independent objects (Sensor, Dipole, Cuboid, Circle, empty "
